@@ -94,6 +94,43 @@ func Sprint(value any) string {
 	return fmt.Sprint(value)
 }
 
+// Plain returns a copy of a map or slice in which every nested Drop is replaced by its
+// ToLiquid value and every pointer by what it points to, so that printing the result shows
+// Liquid values rather than Go struct syntax or memory addresses.
+func Plain(value any) any {
+	value = ToLiquid(value)
+	if value == nil {
+		return nil
+	}
+	rv := reflect.ValueOf(value)
+	switch rv.Kind() {
+	case reflect.Ptr:
+		if rv.IsNil() {
+			return nil
+		}
+		if rv.Elem().Kind() == reflect.Struct {
+			return value
+		}
+		return Plain(rv.Elem().Interface())
+	case reflect.Map:
+		out := make(map[any]any, rv.Len())
+		for _, k := range rv.MapKeys() {
+			out[k.Interface()] = Plain(rv.MapIndex(k).Interface())
+		}
+		return out
+	case reflect.Slice, reflect.Array:
+		if rv.Type().Elem().Kind() == reflect.Uint8 {
+			return value
+		}
+		out := make([]any, rv.Len())
+		for i := range out {
+			out[i] = Plain(rv.Index(i).Interface())
+		}
+		return out
+	}
+	return value
+}
+
 // Convert value to the type. This is a more aggressive conversion, that will
 // recursively create new map and slice values as necessary. It doesn't
 // handle circular references.
